@@ -84,8 +84,8 @@ def _dom_design(job):
     from .. import design_replay
     cfg, evs = job
     top, sigs = design_replay.build(cfg)
-    ins = {s.name: s for k, s in sigs.items() if k not in ("r1", "r2", "r3")}
-    outs = {sigs[k].name: sigs[k] for k in ("r1", "r2", "r3")}
+    ins = {s.name: s for k, s in sigs.items() if k not in ("r1", "r2", "r3", "r4")}
+    outs = {sigs[k].name: sigs[k] for k in ("r1", "r2", "r3", "r4")}
     events = []
     for ev in evs:
         if ev[0] == "clk":
@@ -259,7 +259,7 @@ def run(ctx):
     rng.shuffle(progs)
     for i in range(0, len(progs), 20):
         jobs.append((_expr_design, (progs[i:i + 20], rng.getrandbits(32))))
-    ctrl, lhs, fsm, mixed = c02.instances(th)
+    ctrl, lhs, fsm, mixed, fsm2 = c02.instances(th)
     files = _sim_files(ctx, "MC_AmStmt", c02.CFG.format(**mixed), 4000 if th else 600, mixed["maxlen"] + 1, "stmt")
     sprogs = [p for chunk in pmap(_stmt_progs, [files[i::16] for i in range(16) if files[i::16]]) for p in chunk]
     for i in range(0, len(sprogs), 6):
